@@ -15,15 +15,20 @@ INFO = {
                    "itself, the step count and the hyper-parameter constants symbolic, and z3 decides F'_i F_0 = F'_0 F_i (common rescaling; "
                    "F' = F for sgd/adam) and new filter moments = 0.  The slice's input set (read from the jaxpr) must not contain data, other "
                    "parameters or their moments - i.e. d loss / d F == 0.  (c) For each trained model class the post-step model - arbitrary free parameters, filter bank abstracted to its sign/magnitude pattern, "
-                   "which any common rescaling preserves - is proved equivariant with the whole-network machinery of C07.  (d) A witness is replayed by "
+                   "which any common rescaling preserves - is proved equivariant with the whole-network machinery of C07.  (e) The WHOLE loop ml.train "
+                   "(get_batches with its key chain, every train_step of every epoch, the validation pass, the best_model hand-back) is traced as one jaxpr under "
+                   "EpochStop; the returned model must have the array-leaf structure of the given one, and the dead-code-eliminated slice of each returned "
+                   "filter leaf must depend on nothing but the initial leaf and is executed symbolically: common rescaling (equal, without weight decay).  (d) A witness is replayed by "
                    "running the real train_step on floats.",
-    "functions": ["ml.train_step", "eqx.filter_value_and_grad", "eqx.filter_pmap body (shard_map)", "optax.sgd / adam / adamw update", "eqx.apply_updates",
+    "functions": ["ml.train", "ml.get_batches", "ml.map_loss_in_batches", "EpochStop.stop", "ml.train_step", "eqx.filter_value_and_grad", "eqx.filter_pmap body (shard_map)", "optax.sgd / adam / adamw update", "eqx.apply_updates",
                   "ml.ConvContract.individual_convolve (stop_gradient on the bank)", "ml.smse_loss"],
     "bounds": {
-        "quick": "models {ConvContract, ConvBlock(+norm), ResNet, UNet(+norm)} x optimisers {sgd, sgd+momentum, adam, adamw(decay)} x step count {0, 7}; d=2, N=4, batch 2",
+        "quick": "models {ConvContract, ConvBlock(+norm), ResNet, UNet(+norm)} x optimisers {sgd, sgd+momentum, adam, adamw(decay)} x step count {0, 7}; d=2, N=4, batch 2; "
+                 "ml.train whole: 5 (model, optimiser, epochs<=2, validation on/off) cells, 4 samples, batch 2",
         "thorough": "adds DilResNet, d=3 ResNet, lion / rmsprop / adagrad, step counts {0,1,7}",
     },
-    "outside": ["ml.train itself only iterates train_step and returns one of the iterates (best_model, C19): that sentence is an argument, not a query",
+    "outside": ["ml.train is traced whole only under EpochStop (1-2 epochs quick, 3 thorough; 2 batches per epoch): with TrainLoss / ValLoss its control flow "
+                "branches on loss values and cannot be one jaxpr; which iterate those conditions hand back is C19's subject",
                 "optimisers outside the enumerated set; parameter-dependent learning-rate schedules"],
     "assumptions": ["equivariance of the post-step model follows from C07 (all parameter values; filter bank abstracted to its sign/magnitude pattern, which a "
                     "common rescaling preserves)"],
@@ -47,6 +52,16 @@ def cells(tier, seed):
                 out.append({"model": m, "opt": o, "count": count})
     for m in models_:
         out.append({"kind": "equiv", "model": m, "opt": "-", "count": -1})
+    # the whole training loop ml.train (EpochStop, so that the loop's control flow does not depend on loss values and can be traced)
+    loops = [("conv", "adamw", 2, True), ("conv", "sgd", 1, False), ("block_norm", "adamw", 1, True), ("conv_ps", "momentum", 2, False),
+             ("resnet", "adam", 1, False)]
+    if tier == "thorough":
+        loops += [(m, o, e, v) for m in ("conv", "block_norm", "resnet", "unet", "conv_ps") for o in ("sgd", "adam", "adamw", "lion") for e, v in ((1, True), (3, False))]
+    seen = set()
+    for m, o, e, v in loops:
+        if (m, o, e, v) not in seen:
+            seen.add((m, o, e, v))
+            out.append({"kind": "loop", "model": m, "opt": o, "count": e, "val": v})
     return out
 
 
@@ -111,6 +126,8 @@ def run_cell(cfg, cx):
               "N": 4, "down": 1, "gs": "generators"}
         C07.run_cell(c7, cx, prebuilt=(m, in_sig, out_sig))
         return
+    if cfg.get("kind") == "loop":
+        return _run_loop_cell(cfg, cx)
     import jax
     import jax.numpy as jnp
     import equinox as eqx
@@ -259,3 +276,126 @@ def _concrete_step(cfg, m, optim, map_and_loss, in_sig, out_sig, D, N, B, fi, tr
                 worst, where = dev, p
         model = m2
     return worst > 1e-6, f"after 2 real train_steps ({cfg['opt']}) filter leaf {where} deviates from any common rescaling of its old value by {worst:.3g}"
+
+
+def _run_loop_cell(cfg, cx):
+    """The whole ml.train loop (get_batches, every train_step of every epoch, validation pass, best_model hand-back) traced as ONE jaxpr with the
+    EpochStop condition; the slice of the RETURNED model's filter leaves is executed symbolically."""
+    import jax
+    import jax.numpy as jnp
+    import equinox as eqx
+    from jax._src.interpreters import partial_eval as pe
+    import ginjax.geometric as geom
+    import ginjax.ml as ml
+    from jxsmt import sym as S, interp as I
+
+    m, D, in_sig, out_sig = _model(cfg["model"])
+    optim = _optim(cfg["opt"])
+    N, B, L, E = 4, 2, 4, cfg["count"]
+    ckey = f"loop:model={cfg['model']}:opt={cfg['opt']}:epochs={E}:val={cfg['val']}"
+
+    def map_and_loss(model, x, y, aux):
+        out = jax.vmap(lambda xx: model(xx)[0])(x)
+        return ml.smse_loss(out, y), aux
+
+    params, static = eqx.partition(m, eqx.is_array)
+    p_leaves, p_def = jax.tree_util.tree_flatten(params)
+    p_paths = [jax.tree_util.keystr(p) for p, _ in jax.tree_util.tree_flatten_with_path(params)[0]]
+
+    def data(n):
+        X = geom.MultiImage({q: jnp.ones((n, c) + (N,) * D + (D,) * q[0]) for q, c in in_sig}, D, True)
+        Y = geom.MultiImage({q: jnp.ones((n, c) + (N,) * D + (D,) * q[0]) for q, c in out_sig}, D, True)
+        return X, Y
+    X, Y = data(L)
+    VX, VY = data(2) if cfg["val"] else (None, None)
+    x_leaves, x_def = jax.tree_util.tree_flatten((X, Y, VX, VY))
+    box = {}
+
+    def loop(pl, xl):
+        model = eqx.combine(jax.tree_util.tree_unflatten(p_def, list(pl)), static)
+        xx, yy, vx, vy = jax.tree_util.tree_unflatten(x_def, list(xl))
+        out_model, _, el, vl = ml.train(xx, yy, map_and_loss, model, jax.random.PRNGKey(3), ml.EpochStop(E, verbose=0), B, optim, vx, vy)
+        op, ostatic = eqx.partition(out_model, eqx.is_array)
+        box["paths"] = [jax.tree_util.keystr(p) for p, _ in jax.tree_util.tree_flatten_with_path(op)[0]]
+        box["same_static"] = jax.tree_util.tree_structure(out_model) == jax.tree_util.tree_structure(model)
+        return jax.tree_util.tree_leaves(op), el
+
+    jp, shp = I.trace_real(loop, [p_leaves, x_leaves])
+    I.STATS["jaxprs_traced"] += 1
+    I.STATS["jaxpr_eqns_total"] += I.count_eqns(jp.jaxpr)
+    cx.structural("ml.train hands back a model with the array-leaf structure of the model it was given", bool(box["same_static"]) and box["paths"] == p_paths,
+                  f"returned leaves {box['paths'][:4]}... vs {p_paths[:4]}...", key=f"struct:{ckey}")
+    if box["paths"] != p_paths:
+        return
+    n_p, n_x = len(p_leaves), len(x_leaves)
+    in_names = [f"param{p}" for p in p_paths] + [f"data[{i}]" for i in range(n_x)]
+    filt_idx = [i for i, p in enumerate(p_paths) if "invariant_filters" in p]
+    for fi in filt_idx:
+        fpath = p_paths[fi]
+        used = [i == fi for i in range(len(jp.jaxpr.outvars))]
+        dj, used_in = pe.dce_jaxpr(jp.jaxpr, used)
+        bad = [in_names[i] for i, u in enumerate(used_in) if u and i != fi]
+
+        def replay(vals, bvals, fi=fi):
+            return _concrete_loop(cfg, m, optim, map_and_loss, in_sig, out_sig, D, N, B, L, E)
+        cx.structural(f"ml.train: returned {fpath} depends only on the initial {fpath}", not bad,
+                      f"also depends on {bad[:6]}", replay=replay, key=f"loopdeps:{ckey}:{fpath}")
+        if bad:
+            continue
+        F = S.var_array("F", p_leaves[fi].shape)
+        args = [F if i == fi else (p_leaves + x_leaves)[i] for i, u in enumerate(used_in) if u]
+        consts = list(jp.consts) if len(dj.constvars) == len(jp.consts) else [c for c, v in zip(jp.consts, jp.jaxpr.constvars) if v in dj.constvars]
+        outs = I.run_jaxpr(dj, consts, args)
+        I.STATS["dce_slices_executed"] += 1
+        newF = outs[0]
+        if not I.is_sym(newF):
+            cx.structural(f"ml.train: returned {fpath} is a function of the initial filter bank", False, "returned filter leaf is a constant", key=f"loopconst:{ckey}:{fpath}",
+                          replay=replay)
+            continue
+        flatF, flatN = F.a.reshape(-1), newF.a.reshape(-1)
+        lhs = np.array([flatN[i] * flatF[0] for i in range(flatF.size)], dtype=object)
+        rhs = np.array([flatN[0] * flatF[i] for i in range(flatF.size)], dtype=object)
+        cx.equal(f"ml.train: returned {fpath} is a common rescaling of the initial one", lhs, rhs, replay=replay, key=f"looprescale:{ckey}:{fpath}")
+        if cfg["opt"] in ("sgd", "momentum", "adam", "rmsprop", "adagrad"):
+            cx.equal(f"ml.train: returned {fpath} equals the initial one ({cfg['opt']}: no weight decay)", newF, F, replay=replay, key=f"loopsame:{ckey}:{fpath}")
+        if fi == filt_idx[0]:
+            cx.canary("canary[ml.train returns twice the initial filters]", newF, F.a * 2)
+
+
+def _concrete_loop(cfg, m, optim, map_and_loss, in_sig, out_sig, D, N, B, L, E):
+    """Replay: the real ml.train on seeded float data; reports whether some filter leaf of the returned model is not a common rescaling of
+    the initial one."""
+    import jax
+    import jax.numpy as jnp
+    import equinox as eqx
+    import ginjax.geometric as geom
+    import ginjax.ml as ml
+    rng = np.random.RandomState(1)
+    params, static = eqx.partition(m, eqx.is_array)
+    leaves, tdef = jax.tree_util.tree_flatten(params)
+    paths = [jax.tree_util.keystr(p) for p, _ in jax.tree_util.tree_flatten_with_path(params)[0]]
+    new_leaves = [l if "invariant_filters" in p else l + jnp.asarray(rng.normal(size=l.shape), dtype=l.dtype) * 0.3 for l, p in zip(leaves, paths)]
+    model = eqx.combine(jax.tree_util.tree_unflatten(tdef, new_leaves), static)
+
+    def data(n):
+        X = geom.MultiImage({q: jnp.asarray(rng.normal(size=(n, c) + (N,) * D + (D,) * q[0]), dtype=jnp.float32) for q, c in in_sig}, D, True)
+        Y = geom.MultiImage({q: jnp.asarray(rng.normal(size=(n, c) + (N,) * D + (D,) * q[0]), dtype=jnp.float32) for q, c in out_sig}, D, True)
+        return X, Y
+    X, Y = data(L)
+    VX, VY = data(2) if cfg["val"] else (None, None)
+    out_model, _, _, _ = ml.train(X, Y, map_and_loss, model, jax.random.PRNGKey(3), ml.EpochStop(max(E, 2), verbose=0), B, optim, VX, VY)
+    new = jax.tree_util.tree_leaves(eqx.filter(out_model, eqx.is_array))
+    if len(new) != len(new_leaves):
+        return True, "returned model has a different set of array leaves"
+    worst, where = 0.0, None
+    for o, n, p in zip(new_leaves, new, paths):
+        if "invariant_filters" not in p:
+            continue
+        o, n = np.asarray(o, dtype=np.float64).reshape(-1), np.asarray(n, dtype=np.float64).reshape(-1)
+        if o.shape != n.shape:
+            return True, f"filter leaf {p} changed shape"
+        c = float(n @ o) / float(o @ o)
+        dev = float(np.max(np.abs(n - c * o)))
+        if dev > worst:
+            worst, where = dev, p
+    return worst > 1e-6, f"after the real ml.train ({cfg['opt']}, {max(E, 2)} epochs) filter leaf {where} deviates from any common rescaling of its initial value by {worst:.3g}"
